@@ -860,8 +860,10 @@ def dump_one(f: TextIO, data: IOData):
 
     f.write("[GTO]\n")
     last_icenter = -1
-    # The shells must be sorted by center.
-    for shell in sorted(obasis.shells, key=(lambda s: s.icenter)):
+    # The shells must be sorted by center. The same (stable) order is applied
+    # below to the rows of the orbital coefficients.
+    shell_order = sorted(range(len(obasis.shells)), key=(lambda i: obasis.shells[i].icenter))
+    for shell in (obasis.shells[i] for i in shell_order):
         if shell.icenter != last_icenter:
             if last_icenter != -1:
                 f.write("\n")
@@ -877,6 +879,10 @@ def dump_one(f: TextIO, data: IOData):
 
     # Get the permutation to convert the orbital coefficients to Molden conventions.
     permutation, signs = convert_conventions(obasis, CONVENTIONS)
+    offsets = np.cumsum([0] + [shell.nbasis for shell in obasis.shells])
+    row_order = np.concatenate([np.arange(offsets[i], offsets[i + 1]) for i in shell_order])
+    permutation = permutation[row_order]
+    signs = signs[row_order]
 
     # Print the mean-field orbitals
     if data.mo.kind == "unrestricted":
